@@ -263,7 +263,8 @@ CLAIMED.update({
         design_ref='DESIGN.md §6 C13'),
     'C14': dict(
         text='Lean 4 model of the OpenMVG converter core on the C05 pose algebra: export centre = inverse(pose).t, import t = -R c, '
-             'intrinsics mapping both ways and both layouts, dense id assignment, image-name decomposition and path flattening, '
+             'intrinsics mapping both ways and both layouts (proved equal to branch tables GENERATED from '
+             '_export_openmvg_intrinsics, the _get_intrinsic_* getters and _import_openmvg_cameras on every run), dense id assignment, image-name decomposition and path flattening, '
              'region file naming, structure and matches with column swap; 25 theorems incl. centre_is_camera_centre, '
              'pose_roundtrip_sign_scale (any non-zero multiple of the quaternion), intrinsics_roundtrip, '
              'imported_names_collide_iff (flattening collides exactly when names differ by / versus _), regions_found, '
